@@ -83,6 +83,18 @@ class Module:
         return [c for c in self.classes if base in self.mro(c) and c != base]
 
 
+def tuple_proj(t, i, n):
+    """component i of a tuple-valued term (conditionals are distributed)"""
+    if t[0] == "tuple":
+        if len(t) - 1 != n:
+            raise Unsupported("tuple arity")
+        return t[1 + i]
+    if t[0] == "ite":
+        a, b = tuple_proj(t[2], i, n), tuple_proj(t[3], i, n)
+        return ("ite", t[1], a, b) if a != b else a
+    raise Unsupported("unpacking a non-tuple")
+
+
 class Tr:
     """symbolic executor for one class"""
 
@@ -207,6 +219,8 @@ class Tr:
                 continue
             if isinstance(s, ast.Assign) and all(isinstance(t, ast.Name) for t in s.targets):
                 for tg in s.targets:
+                    la = self.__dict__.setdefault("local_ast", {})
+                    la[tg.id] = None if tg.id in la else s.value        # single-assignment locals only
                     try:
                         env[tg.id] = self.expr(s.value, env, k)
                     except Unsupported as e:
@@ -228,6 +242,12 @@ class Tr:
             elif isinstance(s, ast.Assign) and len(s.targets) == 1 and isinstance(s.targets[0], ast.Tuple) and isinstance(s.value, ast.Tuple):
                 for t, v in zip(s.targets[0].elts, s.value.elts):
                     env[t.id] = self.expr(v, env, k)
+            elif isinstance(s, ast.Assign) and len(s.targets) == 1 and isinstance(s.targets[0], ast.Tuple) and all(isinstance(t, ast.Name) for t in s.targets[0].elts):
+                # unpacking of a tuple-valued expression (e.g. a helper method returning several coefficients, possibly from different
+                # branches): component-wise, conditionals distributed over the components
+                tv_ = self.expr(s.value, env, k)
+                for i_, t in enumerate(s.targets[0].elts):
+                    env[t.id] = tuple_proj(tv_, i_, len(s.targets[0].elts))
             elif isinstance(s, ast.AugAssign) and isinstance(s.target, ast.Name):
                 op = {ast.Add: "add", ast.Sub: "sub", ast.Mult: "mul", ast.Div: "div"}[type(s.op)]
                 env[s.target.id] = (op, env[s.target.id], self.expr(s.value, env, k))
@@ -284,9 +304,60 @@ class Tr:
             if isinstance(cv, ast.Constant) and isinstance(cv.value, bool):
                 return ("const", cv.value)
         # untranslatable scalar test: a flag the harness evaluates on the real object (`eval` of the source text)
-        src = ast.unparse(e)
+        src = self.canon_src(e)
         self.notes.append(f"{k}: test `{src[:60]}` is a flag")
         return ("cmp", "gt", ("var", "flag:" + src), ("lit", 5, -1))
+
+    def canon_src(self, e):
+        """canonical source text of an expression that stays opaque (evaluated by the harness on the live object): single-assignment
+        locals are replaced by their defining expressions, and the spellings `'A_%s' % x`, `'A_{}'.format(x)`, `f'A_{x}'` of one
+        string are all written as the f-string — so that such refactors do not rename the opaque variable"""
+        import copy as _copy
+        la = {k_: v_ for k_, v_ in self.__dict__.get("local_ast", {}).items() if v_ is not None}
+
+        class T(ast.NodeTransformer):
+            def __init__(s_):
+                s_.depth = 0
+
+            def visit_Name(s_, n):
+                if n.id in la and s_.depth < 4 and not any(isinstance(x, ast.Name) and x.id == n.id for x in ast.walk(la[n.id])):
+                    s_.depth += 1
+                    out = s_.visit(_copy.deepcopy(la[n.id]))
+                    s_.depth -= 1
+                    return out
+                return n
+
+            def visit_BinOp(s_, n):
+                n = s_.generic_visit(n)
+                if isinstance(n.op, ast.Mod) and isinstance(n.left, ast.Constant) and isinstance(n.left.value, str):
+                    parts = re.split(r"(%[sdr])", n.left.value)
+                    args = list(n.right.elts) if isinstance(n.right, ast.Tuple) else [n.right]
+                    if sum(1 for p_ in parts if re.fullmatch(r"%[sdr]", p_)) == len(args):
+                        vals, it = [], iter(args)
+                        for p_ in parts:
+                            if re.fullmatch(r"%[sdr]", p_):
+                                vals.append(ast.FormattedValue(value=next(it), conversion=-1, format_spec=None))
+                            elif p_:
+                                vals.append(ast.Constant(value=p_))
+                        return ast.JoinedStr(values=vals)
+                return n
+
+            def visit_Call(s_, n):
+                n = s_.generic_visit(n)
+                if isinstance(n.func, ast.Attribute) and n.func.attr == "format" and isinstance(n.func.value, ast.Constant) and isinstance(n.func.value.value, str) \
+                        and not n.keywords and n.func.value.value.count("{}") == len(n.args) and "{" not in n.func.value.value.replace("{}", ""):
+                    vals, it = [], iter(n.args)
+                    for i_, p_ in enumerate(n.func.value.value.split("{}")):
+                        if i_:
+                            vals.append(ast.FormattedValue(value=next(it), conversion=-1, format_spec=None))
+                        if p_:
+                            vals.append(ast.Constant(value=p_))
+                    return ast.JoinedStr(values=vals)
+                return n
+        try:
+            return ast.unparse(ast.fix_missing_locations(T().visit(_copy.deepcopy(e))))
+        except Exception:
+            return ast.unparse(e)
 
     def self_attr(self, a, k, env):
         if a in self.inputs:
@@ -315,8 +386,8 @@ class Tr:
         except Unsupported as ex:
             if isinstance(e, (ast.Constant, ast.Name)):
                 raise
-            src = ast.unparse(e)
-            if any(isinstance(n, ast.Name) and n.id in env and n.id != "self" for n in ast.walk(e)):
+            src = self.canon_src(e)
+            if any(isinstance(n, ast.Name) and n.id in env and n.id != "self" for n in ast.walk(ast.parse(src, mode="eval"))):
                 raise                     # mentions a local: cannot be re-evaluated from outside
             self.notes.append(f"{k}: `{src[:60]}` opaque ({ex})")
             return ("var", "py:" + src)
@@ -325,7 +396,35 @@ class Tr:
         if isinstance(e, ast.Constant):
             if isinstance(e.value, (int, float)) and not isinstance(e.value, bool):
                 return lit(e.value)
+            if isinstance(e.value, str):
+                return ("str", e.value)          # only ever used as a (statically known) dictionary key
             raise Unsupported(f"const {e.value!r}")
+        if isinstance(e, ast.Tuple) or isinstance(e, ast.List):
+            return ("tuple",) + tuple(self.expr(x, env, k) for x in e.elts)
+        comp = e.args[0] if (isinstance(e, ast.Call) and isinstance(e.func, ast.Name) and e.func.id in ("tuple", "list") and len(e.args) == 1
+                             and isinstance(e.args[0], (ast.GeneratorExp, ast.ListComp))) else (e if isinstance(e, (ast.GeneratorExp, ast.ListComp)) else None)
+        if comp is not None:
+            # a comprehension over a literal tuple/list of constants is unrolled (e.g. `tuple(self.params[n + "_0"] for n in ("A", "alpha"))`)
+            if len(comp.generators) == 1 and not comp.generators[0].ifs and isinstance(comp.generators[0].target, ast.Name) \
+                    and isinstance(comp.generators[0].iter, (ast.Tuple, ast.List)) and all(isinstance(x, ast.Constant) for x in comp.generators[0].iter.elts):
+                out_ = []
+                for c_ in comp.generators[0].iter.elts:
+                    env2_ = dict(env)
+                    env2_[comp.generators[0].target.id] = self.expr(c_, env, k)
+                    out_.append(self.expr(comp.elt, env2_, k))
+                return ("tuple",) + tuple(out_)
+            raise Unsupported("comprehension")
+        if isinstance(e, ast.JoinedStr):
+            parts_ = []
+            for v_ in e.values:
+                t_ = self.expr(v_.value if isinstance(v_, ast.FormattedValue) else v_, env, k)
+                if t_[0] == "str":
+                    parts_.append(t_[1])
+                elif t_[0] == "lit" and t_[2] == 0:
+                    parts_.append(str(t_[1]))
+                else:
+                    raise Unsupported("f-string of a non-constant")
+            return ("str", "".join(parts_))
         if isinstance(e, ast.Name):
             if e.id in env:
                 if env[e.id][0] == "def":
@@ -342,6 +441,10 @@ class Tr:
             if not op:
                 raise Unsupported(f"binop {type(e.op).__name__}")
             l, r = self.expr(e.left, env, k), self.expr(e.right, env, k)
+            if l[0] == "str" or r[0] == "str":
+                if op == "add" and l[0] == "str" and r[0] == "str":
+                    return ("str", l[1] + r[1])
+                raise Unsupported("string arithmetic")
             if os.environ.get("PYEXPR_SWAP") and op in ("add", "mul"):
                 l, r = r, l     # robustness self-test only (tools/robustness.sh): translate as if every commutative operand pair were swapped in the source
             if op == "pow" and r[0] == "lit" and r[2] == 0 and abs(r[1]) <= 12:
@@ -381,10 +484,18 @@ class Tr:
         if isinstance(e, ast.Subscript):
             src = ast.unparse(e.value)
             if src == "self.params":
-                if not isinstance(e.slice, ast.Constant):
+                key = None
+                if isinstance(e.slice, ast.Constant):
+                    key = e.slice.value
+                else:
+                    try:
+                        kt_ = self.expr(e.slice, env, k)
+                        key = kt_[1] if kt_[0] == "str" else None
+                    except Unsupported:
+                        key = None
+                if key is None:
                     self.notes.append(f"{k}: dynamic key `{ast.unparse(e)[:50]}` is opaque")
-                    return ("var", "py:" + ast.unparse(e))
-                key = e.slice.value
+                    return ("var", "py:" + self.canon_src(e))
                 self.load_init()
                 if key in self.pover:
                     return self.pover[key]
@@ -760,29 +871,54 @@ def wiring():
             if not cached and fn.name in ("__init__", "validate", "update", "clone"):
                 continue
             k = 0
+            # single-assignment locals are written out in the recorded argument texts (so `mask = dndm > 0; f(m[mask])` reads `f(m[dndm > 0])`)
+            cnt_ = {}
+            for a_ in ast.walk(fn):
+                if isinstance(a_, ast.Assign):
+                    for t_ in a_.targets:
+                        for nm_ in ast.walk(t_):
+                            if isinstance(nm_, ast.Name) and isinstance(nm_.ctx, ast.Store):
+                                cnt_[nm_.id] = cnt_.get(nm_.id, 0) + 1
+                elif isinstance(a_, (ast.AugAssign, ast.For)) :
+                    for nm_ in ast.walk(a_.target):
+                        if isinstance(nm_, ast.Name):
+                            cnt_[nm_.id] = cnt_.get(nm_.id, 0) + 2
+            argn_ = {x.arg for x in fn.args.args}
+            la_ = {a_.targets[0].id: a_.value for a_ in ast.walk(fn) if isinstance(a_, ast.Assign) and len(a_.targets) == 1 and isinstance(a_.targets[0], ast.Name)
+                   and cnt_.get(a_.targets[0].id) == 1 and a_.targets[0].id not in argn_ and not isinstance(a_.value, ast.Call)}
+
+            def src_(e_, depth=0):
+                import copy as _copy
+
+                class T(ast.NodeTransformer):
+                    def visit_Name(s_, n_):
+                        if n_.id in la_ and depth < 3:
+                            return ast.parse(src_(la_[n_.id], depth + 1), mode="eval").body
+                        return n_
+                return ast.unparse(ast.fix_missing_locations(T().visit(_copy.deepcopy(e_))))
             for n in ast.walk(fn):
                 if not isinstance(n, ast.Call):
                     continue
                 callee = ast.unparse(n.func)
-                if isinstance(n.func, ast.Attribute) and isinstance(n.func.value, ast.Name) and n.func.value.id != "self" and n.func.attr in ("update", "clone") \
-                        and not n.args:
+                if isinstance(n.func, ast.Attribute) and isinstance(n.func.value, ast.Name) and n.func.attr in ("update", "clone") and not n.args \
+                        and ((n.func.value.id != "self") or (n.func.attr == "clone" and not cached)):
                     # a derived framework object built inside a helper (e.g. the high-mass extension of `_gtm`): which parameters it is given
-                    rows.append((f"{cls}.{fn.name}" + (f"#{k}" if k else ""), [("callee", "<derived object>." + n.func.attr)] + sorted(((kw.arg or "**"), ast.unparse(kw.value)) for kw in n.keywords)))
+                    rows.append((f"{cls}.{fn.name}" + (f"#{k}" if k else ""), [("callee", "<derived object>.update")] + sorted(((kw.arg or "**"), src_(kw.value)) for kw in n.keywords)))
                     k += 1
                     continue
                 if isinstance(n.func, ast.Name) and n.func.id in funcs:
                     # arguments bound to the callee's parameter names, so positional and keyword spellings give the same row
                     name, params = funcs[n.func.id]
-                    bound = [(params[i] if i < len(params) else f"#{i}", ast.unparse(a)) for i, a in enumerate(n.args)]
-                    bound += [((kw.arg or "**"), ast.unparse(kw.value)) for kw in n.keywords]
+                    bound = [(params[i] if i < len(params) else f"#{i}", src_(a)) for i, a in enumerate(n.args)]
+                    bound += [((kw.arg or "**"), src_(kw.value)) for kw in n.keywords]
                     rows.append((f"{cls}.{fn.name}" + (f"#{k}" if k else ""), [("callee", name)] + sorted(bound)))
                     k += 1
                     continue
                 if not isinstance(n.func, ast.Attribute):
                     continue
                 if re.fullmatch(r"self\.[A-Za-z_]+_model(\.clone)?", callee):
-                    args = [(f"#{i}", ast.unparse(a)) for i, a in enumerate(n.args)]
-                    args += sorted(((kw.arg or "**"), ast.unparse(kw.value)) for kw in n.keywords)
+                    args = [(f"#{i}", src_(a)) for i, a in enumerate(n.args)]
+                    args += sorted(((kw.arg or "**"), src_(kw.value)) for kw in n.keywords)
                     rows.append((f"{cls}.{fn.name}" + (f"#{k}" if k else ""), [("callee", callee[5:])] + args))
                     k += 1
     # stable site names: `Class.method`, or `Class.method/callee` when a method makes several recorded calls (independent of the
